@@ -481,6 +481,33 @@ def st_memcpy(L, ex, a, I):
         ex.memmove(d, s, n)
     return d
 
+def st_memcmp(L, ex, a, I):
+    """memcmp / bcmp (concrete size): 0 iff the ranges are equal, else the sign of the first difference"""
+    p, q, n = a[0], a[1], a[2]
+    if not isinstance(n, int):
+        n = ex.concretize(n, 0, 1 << 16, 'memcmp size')
+    if n == 0:
+        return 0
+    po, qo = p.off, q.off
+    if not isinstance(po, int):
+        po = ex.concretize(po, 0, p.obj.size, 'memcmp ptr')
+    if not isinstance(qo, int):
+        qo = ex.concretize(qo, 0, q.obj.size, 'memcmp ptr')
+    ex.mem.check(p.obj, po, n, 'read'); ex.mem.check(q.obj, qo, n, 'read')
+    res = z3.BitVecVal(0, 32)
+    allint = True
+    for k in reversed(range(n)):
+        x, y = ex.mem.byte_at(p.obj, po + k), ex.mem.byte_at(q.obj, qo + k)
+        if isinstance(x, int) and isinstance(y, int):
+            if x != y:
+                res = z3.BitVecVal(0xffffffff if x < y else 1, 32)
+            continue
+        allint = False
+        X, Y = tobv(x, 8), tobv(y, 8)
+        res = z3.If(X == Y, res, z3.If(z3.ULT(X, Y), z3.BitVecVal(0xffffffff, 32), z3.BitVecVal(1, 32)))
+    res = simp(res)
+    return res.as_long() if z3.is_bv_value(res) else res
+
 def st_memset(L, ex, a, I):
     d, c, n = a[0], a[1], a[2]
     if not isinstance(n, int):
@@ -620,6 +647,8 @@ def install(L):
     S['@memcpy'] = st_memcpy
     S['@llvm.memcpy.p0i8.p0i8.i64'] = st_memcpy
     S['@memset'] = st_memset
+    S['@memcmp'] = st_memcmp
+    S['@bcmp'] = st_memcmp
     S['@llvm.memset.p0i8.i64'] = st_memset
     S['@malloc'] = st_malloc
     S['@free'] = st_free
